@@ -28,6 +28,13 @@ def strip(name):
   return name
 
 
+def canon_status(s):
+  """ScopeCollectionNotFound ("the collection is empty") vs Scope{Param,Variable}NotFoundError: which one is raised for a missing
+  entry depends on whether the *tree the scope sees* has any other entry in that collection; a lifted scope sees its own subtree,
+  the plain scope the whole tree.  Both report the missing entry; the comparison with lifted runs does not distinguish them."""
+  return 'NotFound' if s in ('ScopeCollectionNotFound', 'ScopeParamNotFoundError', 'ScopeVariableNotFoundError') else s
+
+
 def main(chk):
   import jax
   import dsl_linen as dsl
@@ -164,7 +171,7 @@ def main(chk):
       what = f'apply(mutable={mutable!r}, rngs={sorted(cfg["streams"])}, edit={cfg["edit"]})'
       if dsl.snapshot(variables) != snap:
         viol.append(f'{what}: the variables passed in were modified in place')
-      if r2['status'] != ap['status']:
+      if canon_status(r2['status']) != canon_status(ap['status']):
         viol.append(f'{what}: lifted run {r2["status"]} ({r2.get("exc", "")}), specification {ap["status"]}')
       elif ap['status'] == 'returned':
         for _, msg in cmp_spec(spec_obs(ap['obs']), r2['obs'], kinds, keymap):
@@ -174,7 +181,7 @@ def main(chk):
           for prop, msg in lc.compare_tree(ap['ret'], spec_cols, r2['ret'], keymap, what):
             viol.append(msg)
         p2 = run(plain_body, 'apply', pvariables, cfg['streams'], mutable)
-        if p2['status'] != r2['status']:
+        if canon_status(p2['status']) != canon_status(r2['status']):
           viol.append(f'{what}: plain program {p2["status"]}, lifted {r2["status"]}')
         else:
           nk = [i for i, k in enumerate(kinds) if k not in ('key', 'param')]
@@ -205,9 +212,11 @@ def main(chk):
   chk.sample({'spec': 'LinenScope(lifted)', 'program': sim['exports'][0]['prog']})
   chk.cov['behaviours_replayed'] = n
   chk.cov['cond_switch_wraps'] = nwrap
-  chk.assumptions.append('nn.while_loop and method-decorator forms are not exercised; remat policies are treated as inert; '
+  chk.assumptions.append('remat policies are treated as inert; '
                          'observations inside lifted regions are returned as arrays (no side-effect logging)')
-  chk.finish(rule=('LinenScope programs whose child classes are wrapped in nn.jit / nn.remat / identity nn.map_variables (tlc -simulate, <= 8 ops), '
+  import linen_setup_check
+  linen_setup_check.run(chk, 'C05')
+  chk.finish(rule=(linen_setup_check.RULE + '; LinenScope programs whose child classes are wrapped in nn.jit / nn.remat / identity nn.map_variables (tlc -simulate, <= 8 ops), '
                    'init + apply under every mutable / rng / edit configuration; non-trivial = at least one lifted child'), exhaustive=False)
 
 
